@@ -11,7 +11,10 @@ Per process a node runs
     `op`      – one `tracer.Link` / `tracer.Write` call at a time, in the order of the Go code,
   because each of these is its own critical section of `Tracer.mu`;
 * one *backward* goroutine per out-writer (`for backPck := range outWriter.Receive()`): the step
-  `answer w a` = `tracer.Receive(w, a)`.
+  `answer w a` = `tracer.Receive(w, a)`.  When that channel closes the loop ends with
+  `tracer.Drop(outWriter)` (`Uniflow.Tracer.dropW`), and so does a forward loop for its writers when
+  its reader is closed; writers and readers never close in the schedules of this model – teardown
+  is C03's (`Uniflow.Teardown`).
 
 Writers: `0` is the error port's writer, `i+1` the writer of out-port `i`.  Readers: in-port index.
 Whether a write is accepted (`writer.Write(pck) > 0`) is decided by the environment (`op _ acc`).
